@@ -32,5 +32,6 @@ def obligations(tier):
     for f, w in [("value_scalar", "scalars"), ("value_list", "lists of int|str"), ("value_tuple", "tuples incl. nested and empty"),
                  ("value_dict", "dicts"), ("value_set", "sets incl. mixed element types"), ("value_nested", "nested lists")]:
         obs.append(Ob("C19." + f, F, f, 200, what="value typing (%s): a Type, subtype of itself twice in a row, conforms to the normalised Python type" % w))
+    obs.append(Ob("C19.numeric_twins", F, "numeric_twins", 120, what="an int and the float equal to it typed in the same process, both orders: each keeps the type of its own Python type; 1 << 1.0 and 'ab' * 1.0 still impossible"))
     obs.append(Ob("C19.binop_reach", F, "binop_reach", 60, expect="refute", what="twin: a TypeError cell is reached and reported"))
     return obs
